@@ -19,6 +19,7 @@ import (
 	"strconv"
 	"strings"
 	"sync"
+	"time"
 
 	"github.com/cloudwego/eino/callbacks"
 	"github.com/cloudwego/eino/components/model"
@@ -61,7 +62,7 @@ type c09Call struct {
 }
 
 type c09Case struct {
-	Kind      string     `json:"kind"` // pregel|dag|workflow|chain|nested|checkpoint|react|host
+	Kind      string     `json:"kind"` // pregel|dag|workflow|chain|nested|checkpoint|react|host|wfstraggler
 	Layers    []c09Layer `json:"layers,omitempty"`
 	NestFrom  int        `json:"nestFrom,omitempty"` // nested: layers[NestFrom:NestTo] form the inner graph
 	NestTo    int        `json:"nestTo,omitempty"`
@@ -71,6 +72,7 @@ type c09Case struct {
 	SharedOpt bool       `json:"sharedOpt,omitempty"` // one option slice value shared by all callers
 	ParentCB  bool       `json:"parentCB,omitempty"`  // callers derive their ctx from one parent ctx that carries a handler
 	ParentCap int        `json:"parentCap,omitempty"` // parentCB: number of handlers in the parent ctx, passed as a slice built with append (so it may have spare capacity)
+	Par       int        `json:"par,omitempty"`       // wfstraggler: number of parallel nodes (2|3)
 	Sched     []int      `json:"sched,omitempty"`     // interleaving given to the model
 	Seed      uint64     `json:"seed"`
 }
@@ -780,9 +782,179 @@ func c09AgentRunner(c *c09Case, a c09Agent) c09Runner {
 	}
 }
 
+// ---- wfstraggler: an eager Workflow whose failing runs leave a sibling node in flight ----
+//
+//	START -> {check, work[, aux]} -> END (map of the outputs)
+//	check: fails at once for "bad-<id>", answers at once otherwise
+//	work : for "bad-<id>" blocks on the gate of <id> (released by the caller only AFTER the
+//	       failing run has returned), for "good-<id>" releases that gate, waits until the
+//	       straggler's body has returned, lingers a moment, then answers
+//
+// Every caller runs the pair bad-<id>, good-<id> on the SAME compiled object, so each good run
+// overlaps with the completion of a straggler of a finished run (its own partner's and, with
+// several callers, other callers').  On correct code no timing can change a result: the
+// short sleeps only widen the window in which a recycled per-run object would be hit.
+
+type c09Gate struct {
+	release, done chan struct{}
+	once          sync.Once
+}
+
+var c09Gates sync.Map // id -> *c09Gate
+
+func c09WaitCh(ch chan struct{}) bool {
+	select {
+	case <-ch:
+		return true
+	case <-time.After(10 * time.Second):
+		return false
+	}
+}
+
+func c09StragglerID(in string) string {
+	if i := strings.Index(in, "-"); i >= 0 {
+		return in[i+1:]
+	}
+	return in
+}
+
+func c09BuildStraggler(c *c09Case) (compose.Runnable[string, map[string]any], error) {
+	wf := compose.NewWorkflow[string, map[string]any]()
+	wf.AddLambdaNode("check", compose.InvokableLambda(func(_ context.Context, in string) (string, error) {
+		if strings.HasPrefix(in, "bad") {
+			return "", errors.New("rejected " + in)
+		}
+		return "check(" + in + ")", nil
+	})).AddInput(compose.START)
+	wf.AddLambdaNode("work", compose.InvokableLambda(func(_ context.Context, in string) (string, error) {
+		g, _ := c09Gates.Load(c09StragglerID(in))
+		gate, _ := g.(*c09Gate)
+		out := "work(" + in + ")"
+		if gate == nil {
+			return out, nil
+		}
+		if strings.HasPrefix(in, "bad") {
+			defer close(gate.done)
+			if !c09WaitCh(gate.release) {
+				return out + "TIMEOUT", nil
+			}
+			return out, nil
+		}
+		gate.once.Do(func() { close(gate.release) })
+		if !c09WaitCh(gate.done) {
+			return out + "TIMEOUT", nil
+		}
+		time.Sleep(3 * time.Millisecond) // exposure window only (see above)
+		return out, nil
+	})).AddInput(compose.START)
+	end := wf.End().AddInput("check", compose.ToField("check")).AddInput("work", compose.ToField("work"))
+	if c.Par >= 3 {
+		wf.AddLambdaNode("aux", compose.InvokableLambda(func(_ context.Context, in string) (string, error) {
+			return "aux(" + in + ")", nil
+		})).AddInput(compose.START)
+		end.AddInput("aux", compose.ToField("aux"))
+	}
+	return wf.Compile(context.Background())
+}
+
+func c09RenderMap(m map[string]any) string {
+	keys := make([]string, 0, len(m))
+	for k := range m {
+		keys = append(keys, k)
+	}
+	sort.Strings(keys)
+	parts := make([]string, 0, len(keys))
+	for _, k := range keys {
+		parts = append(parts, k+"="+fmt.Sprint(m[k]))
+	}
+	return "{" + strings.Join(parts, ",") + "}"
+}
+
+func c09StragglerRunner(c *c09Case, r compose.Runnable[string, map[string]any]) c09Runner {
+	ctx := context.Background()
+	good := func(call c09Call, id string) string {
+		in := "good-" + id
+		var m map[string]any
+		var err error
+		if call.Paradigm == "stream" {
+			var sr *schema.StreamReader[map[string]any]
+			sr, err = r.Stream(ctx, in)
+			if err == nil {
+				m = map[string]any{}
+				for {
+					ch, e := sr.Recv()
+					if e == io.EOF {
+						break
+					}
+					if e != nil {
+						err = e
+						break
+					}
+					for k, v := range ch {
+						prev, _ := m[k].(string)
+						m[k] = prev + fmt.Sprint(v)
+					}
+				}
+				sr.Close()
+			}
+		} else {
+			m, err = r.Invoke(ctx, in)
+		}
+		if err != nil {
+			return "error:" + c09ErrClass(err)
+		}
+		return c09RenderMap(m)
+	}
+	bad := func(id string) string {
+		out, err := r.Invoke(ctx, "bad-"+id)
+		switch {
+		case err == nil:
+			return "noerr:" + c09RenderMap(out)
+		case strings.Contains(err.Error(), "rejected bad-"+id):
+			return "own"
+		}
+		return "other"
+	}
+	return func(ci, rep int, phase string) (obs c09Obs) {
+		call := c.Calls[ci]
+		defer func() {
+			if p := recover(); p != nil {
+				obs = c09Obs{Err: "panic", Msg: fmt.Sprint(p)}
+			}
+		}()
+		id := fmt.Sprintf("%s%dr%d%s", call.In, ci, rep, phase[:1])
+		gate := &c09Gate{release: make(chan struct{}), done: make(chan struct{})}
+		var b, g string
+		if phase == "alone" {
+			// truly alone: the good run first (nothing of an earlier run in flight), then the
+			// failing run, whose straggler is released, awaited and given time to retire
+			g = good(call, id)
+			c09Gates.Store(id, gate)
+			b = bad(id)
+			gate.once.Do(func() { close(gate.release) })
+			c09WaitCh(gate.done)
+			time.Sleep(20 * time.Millisecond)
+		} else {
+			c09Gates.Store(id, gate)
+			b = bad(id) // returns with `work` still blocked on the gate
+			g = good(call, id)
+			gate.once.Do(func() { close(gate.release) }) // in case the good run never reached `work`
+		}
+		c09Gates.Delete(id)
+		out := "bad:" + b + ";good:" + g
+		return c09Obs{Out: strings.ReplaceAll(out, id, "ID")}
+	}
+}
+
 func c09BuildRunner(c *c09Case) (c09Runner, error) {
 	ctx := context.Background()
 	switch c.Kind {
+	case "wfstraggler":
+		r, err := c09BuildStraggler(c)
+		if err != nil {
+			return nil, err
+		}
+		return c09StragglerRunner(c, r), nil
 	case "react":
 		a, err := react.NewAgent(ctx, &react.AgentConfig{
 			ToolCallingModel:   &c09Model{name: "react"},
